@@ -33,6 +33,7 @@ type Interp struct {
 	T *dom.Trace
 
 	roots  map[string]*rootInfo
+	leafT  map[string]types.Type // type of every leaf ever stored
 	allocN int
 	depth  int
 
@@ -43,6 +44,11 @@ type Interp struct {
 	// AfterEvent is called after each device event (used to havoc what a
 	// callback may legitimately change).
 	AfterEvent func(in *Interp, st *State, guard bdd.Node)
+
+	// Assume (with HasAssume) restricts the analysis to the pre-states
+	// satisfying it; results are meaningful on that care set only.
+	Assume    bdd.Node
+	HasAssume bool
 
 	// bookkeeping for evidence and effect rules
 	Funcs     map[*ssa.Function]int // functions interpreted (call count)
@@ -55,6 +61,7 @@ type Interp struct {
 func New(p *load.Program, c *dom.Ctx, t *dom.Trace) *Interp {
 	in := &Interp{P: p, C: c, T: t,
 		roots:        map[string]*rootInfo{},
+		leafT:        map[string]types.Type{},
 		InitOverride: map[string]Value{},
 		Funcs:        map[*ssa.Function]int{},
 		Externals:    map[string]int{},
@@ -88,7 +95,11 @@ func (in *Interp) Run(fn *ssa.Function, args []Value, st *State) (res Value, out
 		}
 	}()
 	in.entry = fn
-	res, out = in.call(fn, args, bdd.True, st, fn.Pos())
+	g := bdd.True
+	if in.HasAssume {
+		g = in.Assume
+	}
+	res, out = in.call(fn, args, g, st, fn.Pos())
 	return
 }
 
@@ -310,6 +321,7 @@ func (in *Interp) storeAt(st *State, root string, ri *rootInfo, path string, t t
 			return
 		}
 	}
+	in.leafT[key(root, path)] = t
 	if g != bdd.True {
 		var old Value
 		if o, ok := st.Get(root, path); ok {
@@ -324,6 +336,11 @@ func (in *Interp) storeAt(st *State, root string, ri *rootInfo, path string, t t
 
 // ---------------------------------------------------------------------------
 // function interpretation
+
+const (
+	maxMergeEdges = 40
+	maxNodes      = 8 << 20
+)
 
 type inEdge struct {
 	from *ssa.BasicBlock
@@ -409,7 +426,12 @@ func (in *Interp) mergeStates(edges []inEdge) (bdd.Node, *State) {
 				} else {
 					other = b
 				}
-				init := in.initLike(root, ri, path, other)
+				var init Value
+				if t, known := in.leafT[k]; known && ri != nil {
+					init = in.initLeaf(root, ri, path, t)
+				} else {
+					init = in.initLike(root, ri, path, other)
+				}
 				if !aok {
 					a = init
 				} else {
@@ -504,6 +526,12 @@ func (in *Interp) call(fn *ssa.Function, args []Value, guard bdd.Node, st *State
 			continue
 		}
 		delete(ins, b)
+		if len(edges) > maxMergeEdges {
+			in.undecided(b.Instrs[0].Pos(), "%d paths join in %s: the decode is not resolved by constant propagation (state explosion)", len(edges), fn.String())
+		}
+		if in.C.M.Size() > maxNodes {
+			in.undecided(b.Instrs[0].Pos(), "value-domain budget exceeded in %s", fn.String())
+		}
 		pred, cur := in.mergeStates(edges)
 		if top {
 			in.TopBlocks = append(in.TopBlocks, b)
